@@ -215,6 +215,16 @@ func (p *LifePP) AfterPropertiesSet() error {
 	return nil
 }
 
+// PrioLifePP: the same, priority-ordered: with a small Order it is created before the built-in processors are
+// active (while the chain is still empty or short).
+type PrioLifePP struct {
+	LifePP
+	Ord int
+}
+
+func (p *PrioLifePP) Order() int { return p.Ord }
+func (p *PrioLifePP) Priority()  {}
+
 // LazyLifePP: the same, marked LazyInit.
 type LazyLifePP struct{ LifePP }
 
